@@ -8,7 +8,8 @@
    domain) - resolved by arbitrary "coins" over which every theorem quantifies.  Requests of a
    history are TakeTokens with any key list and amount n >= 0, GetBucketState, SetBucketState,
    ResetRateBuckets and SetDefaultBucketState at arbitrary points.
-   Domain: refill interval P/N >= 1 ns and P <= 2^62 ns (lim_ok); non-decreasing clock
+   Domain: refill interval P/N >= 1 ns (below: finding F23) and P <= 2^62 ns (above: F18) (lim_ok);
+   configurations with taken <= N (fresh_cfg; above: F24); non-decreasing clock
    (timeline); amounts n >= 0 (nonneg_in).  Float rounding itself is bridged by measurement
    (Model.agrees / tr_xdiff), not by a theorem: hence `_partial` in the manifest wording. *)
 From Coq Require Import List NArith ZArith Lia Floats.
@@ -109,6 +110,33 @@ Proof. exact reachable_good_proved. Qed.
 Theorem good_buckets_meet_the_hypotheses : forall t s k l, good t s -> has_bucket s k l -> xk l = XNorm -> lim_ok l /\ xlast l <= t.
 Proof. exact good_bucket. Qed.
 
+(* 8. The limiter layer (which limits apply to a request, in which bucket each is accounted):
+   a request (resource, operation, workspace, address) is checked against exactly the limits
+   whose filter matches the resource and whose operation set contains the operation - wherever
+   they stand in the application's limit list - by one TakeTokens over their buckets; it is
+   admitted iff every one of them admits one operation (for all coins; read with the strict
+   coins: iff each applicable limit's bucket would admit), a refused request consumes nothing,
+   and the bucket of every limit that does not apply, like every other bucket, is untouched. *)
+Theorem request_admitted_iff_all_applicable_limits_admit : forall ls q s t coins, NoDup (map l_name ls) ->
+  fst (fst (xexceeded s t coins ls q)) = negb (all_admit s t 1 coins (req_keys ls q)).
+Proof. exact request_admitted_iff_proved. Qed.
+
+Theorem request_admitted_iff_all_applicable_limits_admit_strict : forall ls q s t, NoDup (map l_name ls) ->
+  (fst (fst (xexceeded s t [] ls q)) = false <->
+   forall l, In l ls -> applies q l = true -> bucket_admits false s t (key_of q l) 1 = true).
+Proof. exact request_admitted_iff_strict_proved. Qed.
+
+Theorem non_applicable_limits_untouched : forall ls q s t coins k,
+  ~ In k (req_keys ls q) ->
+  aget key_eqb k (s_b (snd (xexceeded s t coins ls q))) = aget key_eqb k (s_b s).
+Proof. exact non_applicable_untouched_proved. Qed.
+
+Theorem refused_request_consumes_nothing : forall ls q s t coins exc s' k l,
+  xexceeded s t coins ls q = (true, exc, s') ->
+  has_bucket s k l -> xk l = XNorm -> lim_ok l -> xlast l <= t ->
+  exists l', has_bucket s' k l' /\ lim_equiv t l' l.
+Proof. exact refused_request_consumes_nothing_proved. Qed.
+
 (* ---- the float replica F: F18.  Stated for F the fresh-bucket clause reads
      forall st t, 1 <= bs_max st -> 1 <= bs_period st / bs_max st -> maxd <= t ->
        a new bucket admits bs_max st single operations at t
@@ -124,6 +152,21 @@ Example float_whole_token_1ns_refused :
   f_dur_from_tokens (f_every 1) 1 = 1 /\
   f_takes (f_new (mkBS 3 3 0) 63902822400000000000) 63902822400000000000 5 = [true; true; true; false; false].
 Proof. vm_compute. split; reflexivity. Qed.
+
+(* ---- outside `fresh_cfg` the faithful model X itself refutes the fresh-bucket clause
+     forall st, 1 <= bs_max st -> 0 <= bs_period st -> a bucket set to st admits exactly
+       max 0 (bs_max st - bs_taken st) single operations at that instant:
+   F23 - an interval P/N below 1 ns (P < N, P = 0) makes the bucket unlimited (excluded by
+         `1 <= P/N` of fresh_cfg);
+   F24 - taken > N leaves the bucket full instead of empty (excluded by `taken <= N`). *)
+Theorem fresh_sub_ns_interval_refuted : exists st t,
+  1 <= bs_max st /\ 0 <= bs_period st /\ bs_taken st = 0 /\ maxd <= t /\
+  take_seq (set_default sys0 1 st) t (1, 0)%N (repeat [] (Z.to_nat (bs_max st) + 1)) = repeat true (Z.to_nat (bs_max st) + 1).
+Proof. exists (mkBS 5 10 0), 63902822400000000000. vm_compute. repeat split; discriminate. Qed.
+Theorem overtaken_bucket_full_refuted : exists st t,
+  1 <= bs_max st /\ 1 <= Z.quot (bs_period st) (bs_max st) /\ bs_max st < bs_taken st /\ maxd <= t /\
+  take_seq (set_default sys0 1 st) t (1, 0)%N [[]; []; []; []] = [true; true; true; false].
+Proof. exists (mkBS 3000 3 5), 63902822400000000000. vm_compute. repeat split; discriminate. Qed.
 
 (* ---- non-vacuity: concrete states meeting the hypotheses, computed *)
 Definition ex_t0 : Z := 63902822400000000000.
@@ -190,6 +233,20 @@ Proof.
   apply (reachable_states_are_good _ 0 ex_t0); [exact G0|unfold ex_t0; lia|unfold ex_t0; lia|exact W1].
 Qed.
 
+(* two limits on one table with different operation sets, the one that does not cover INSERT
+   first in the list: the INSERT limit (3 per hour) still decides, the SELECT limit is untouched *)
+Definition ex_limits : list limit :=
+  [mkLimit 1 [5]%N true true false [7]%N 3600000000000 100; mkLimit 2 [1; 2]%N true true false [7]%N 3600000000000 3].
+Example limiter_nonvacuous :
+  let q := mkReq 7 1 1 1 in
+  let s0 := fold_left (fun s l => set_default s (l_name l) (limit_default l)) ex_limits (sys0 (L:=xlim)) in
+  let step s := snd (xexceeded s ex_t0 [] ex_limits q) in
+  NoDup (map l_name ex_limits) /\ req_keys ex_limits q = [(2, 1010007)]%N /\
+  map (fun s => fst (fst (xexceeded s ex_t0 [] ex_limits q))) [s0; step s0; step (step s0); step (step (step s0))]
+    = [false; false; false; true] /\
+  aget key_eqb (1, 1010007)%N (s_b (step (step (step (step s0))))) = None.
+Proof. split; [repeat constructor; cbn; intuition discriminate|]. vm_compute. repeat split. Qed.
+
 Print Assumptions window_bound.
 Print Assumptions fresh_admits_exactly_N.
 Print Assumptions first_use_admits_exactly_N.
@@ -202,4 +259,10 @@ Print Assumptions equivalent_states_decide_alike.
 Print Assumptions key_isolation.
 Print Assumptions reachable_states_are_good.
 Print Assumptions good_buckets_meet_the_hypotheses.
+Print Assumptions request_admitted_iff_all_applicable_limits_admit.
+Print Assumptions request_admitted_iff_all_applicable_limits_admit_strict.
+Print Assumptions non_applicable_limits_untouched.
+Print Assumptions refused_request_consumes_nothing.
+Print Assumptions fresh_sub_ns_interval_refuted.
+Print Assumptions overtaken_bucket_full_refuted.
 Print Assumptions fresh_admits_float_refuted.
